@@ -20,19 +20,24 @@ theorem decScalar_wf (t : Ty) (ht : wfTy t = true)
   rcases hk with rfl | ⟨b, s, rfl⟩ | ⟨b, s, rfl⟩ | rfl | rfl | rfl
   · simp only [decScalar] at h
     split at h
-    · cases h; simp only [hasTy, canon, scalarRead, decide_eq_true_eq, and_true]; split <;> omega
+    · cases h
+      refine ⟨?_, rfl⟩
+      simp only [hasTy, scalarRead]
+      split <;> rfl
     · cases h
   · simp only [decScalar] at h
     split at h
     · cases h
-      simp only [hasTy, canon, scalarRead, decide_eq_true_eq, and_true]
-      exact Nat.mod_lt _ (Nat.two_pow_pos b)
+      refine ⟨?_, rfl⟩
+      simp only [hasTy, scalarRead]
+      exact decide_eq_true (Nat.mod_lt _ (Nat.two_pow_pos b))
     · cases h
   · simp only [decScalar] at h
     split at h
     · cases h
-      simp only [hasTy, canon, scalarRead, decide_eq_true_eq, and_true]
-      exact Nat.mod_lt _ (Nat.two_pow_pos b)
+      refine ⟨?_, rfl⟩
+      simp only [hasTy, scalarRead]
+      exact decide_eq_true (Nat.mod_lt _ (Nat.two_pow_pos b))
     · cases h
   · simp only [decScalar] at h
     split at h
@@ -71,8 +76,8 @@ theorem elemBody_inv (cfg : Cfg) (t : Ty) (I : Val → Prop) (put : Val → Val 
     (hdec : ∀ s v s', decode cfg t s (dflt t) = .ok v s' → hasTy t v = true ∧ canon t v = true)
     (hput : ∀ a x, I a → hasTy t x = true → canon t x = true → I (put a x)) :
     ∀ s a a' s', I a → (match packedWith cfg t.isLD (decode cfg t) s (dflt t) with
-        | .ok x s' => .ok (put a x) s'
-        | r => r) = .ok a' s' → I a' := by
+        | Res.ok x s' => Res.ok (put a x) s'
+        | r => r) = Res.ok a' s' → I a' := by
   intro s a a' s' hI hb
   cases hp : packedWith cfg t.isLD (decode cfg t) s (dflt t) with
   | ok x s1 =>
@@ -221,15 +226,15 @@ theorem decode_wf (cfg : Cfg) : ∀ (t : Ty), wfTy t = true → canonTy t = true
     have key : ∀ d0, hasTy t d0 = true → canon t d0 = true →
         (if st.hasBytes = true then
           (match decode cfg t st d0 with
-            | .ok x st' => .ok (.some x) st'
-            | r => r) else .ok d st) = .ok v st' → hasTy (.uptr t) v = true ∧ canon (.uptr t) v = true := by
+            | Res.ok x st' => Res.ok (.some x) st'
+            | r => r) else Res.ok d st) = Res.ok v st' → hasTy (.uptr t) v = true ∧ canon (.uptr t) v = true := by
       intro d0 h1 h2 he
       split at he
       · cases hx : decode cfg t st d0 with
         | ok x s1 =>
           rw [hx] at he
           cases he
-          simpa only [hasTy, canon] using decode_wf cfg t ht hc hk st d0 x s1 h1 h2 hx
+          simpa only [hasTy, canon] using decode_wf cfg t ht hc hk st d0 x _ h1 h2 hx
         | fail => rw [hx] at he; cases he
         | noret => rw [hx] at he; cases he
       · cases he; exact ⟨hd, hcd⟩
@@ -253,7 +258,7 @@ theorem decode_wf (cfg : Cfg) : ∀ (t : Ty), wfTy t = true → canonTy t = true
       | ok x s1 =>
         rw [hx] at h
         cases h
-        simpa only [hasTy, canon] using decode_wf cfg t ht hc hk st (dflt t) x s1 (hasTy_dflt t ht)
+        simpa only [hasTy, canon] using decode_wf cfg t ht hc hk st (dflt t) x _ (hasTy_dflt t ht)
           (canon_of_resettable t _ (resettable_dflt t hc)) hx
       | fail => rw [hx] at h; cases h
       | noret => rw [hx] at h; cases h
